@@ -435,6 +435,41 @@ fn test_series(c: &DtSpan, cx: &mut Cx) -> CaseResult {
     }
     cx.nt_if(n >= 3 && (c.span.u[1] != 0 || c.span.u[0] != 0));
     cx.class_if(n < 50, "stops-at-range-end");
+    // Date and Time series: item i = start + i*period (the additions themselves are judged by
+    // c08.date_span / c08.time_span)
+    let time = gen::mk_time(c.tod);
+    for i in 0..12i64 {
+        let Ok(mult) = span.checked_mul(i) else { break };
+        let (gd, wd) = (date.series(span).nth(i as usize), date.checked_add(mult).ok());
+        ensure!(gd == wd, "series-item-wrong:Date", "{date}.series({span:?}) item {i} = {gd:?} want {wd:?}");
+        let (gt, wt) = (time.series(span).nth(i as usize), time.checked_add(mult).ok());
+        ensure!(gt == wt, "series-item-wrong:Time", "{time}.series({span:?}) item {i} = {gt:?} want {wt:?}");
+        if wd.is_none() && wt.is_none() {
+            break;
+        }
+    }
+    // the standard iterator adaptors see the same sequence as plain iteration
+    fn adaptors<T: PartialEq + std::fmt::Debug + Clone, I: Iterator<Item = T>>(what: &str, mk: &dyn Fn() -> I, sel: u64) -> CaseResult {
+        let plain: Vec<T> = mk().take(14).collect();
+        let (a, b, k, st) = ((sel % 3) as usize, (sel / 3 % 3) as usize, (sel / 9 % 4) as usize, 1 + (sel / 36 % 4) as usize);
+        let mut it = mk();
+        let first = it.next();
+        let after = it.nth(k);
+        ensure!(first == plain.first().cloned() && after == plain.get(1 + k).cloned(), format!("series-adaptor-differs:{what}"), "{what}: next() then nth({k}) = {after:?}, plain iteration gives {:?}", plain.get(1 + k));
+        let skipped = mk().skip(a).skip(b).next();
+        ensure!(skipped == plain.get(a + b).cloned(), format!("series-adaptor-differs:{what}"), "{what}: skip({a}).skip({b}).next() = {skipped:?}, plain iteration gives {:?}", plain.get(a + b));
+        let stepped: Vec<T> = mk().step_by(st).take(4).collect();
+        let want: Vec<T> = plain.iter().step_by(st).take(4).cloned().collect();
+        ensure!(stepped == want, format!("series-adaptor-differs:{what}"), "{what}: step_by({st}) = {stepped:?}, plain iteration gives {want:?}");
+        let mut it = mk();
+        let (x0, x1, x2) = (it.nth(a), it.nth(b), it.next());
+        ensure!(x0 == plain.get(a).cloned() && x1 == plain.get(a + 1 + b).cloned() && x2 == plain.get(a + b + 2).cloned(), format!("series-adaptor-differs:{what}"), "{what}: nth({a}), nth({b}), next() = {x0:?}, {x1:?}, {x2:?}; plain iteration gives {:?}", &plain);
+        Ok(())
+    }
+    let sel = (c.tod as u64) ^ (c.ymd.2 as u64) << 7;
+    adaptors("DateTime::series", &|| dt.series(span), sel)?;
+    adaptors("Date::series", &|| date.series(span), sel)?;
+    adaptors("Time::series", &|| time.series(span), sel)?;
     Ok(())
 }
 
